@@ -344,7 +344,8 @@ def afterReport (c : Cfg) (s : St) (e : AExn) : St × R Unit :=
   else if c.reconnect ≠ 0 then (s, .ok ())
   else teardown c s none
 
-def handleDisconnect (c : Cfg) (s : St) (e : AExn) (rc : Bool) : St × R Unit :=
+/-- handleDisconnect once it is established that the run is still wanted (or the exception is a KeyboardInterrupt). -/
+def handleDisconnectBody (c : Cfg) (s : St) (e : AExn) (rc : Bool) : St × R Unit :=
   let s := if Gen.appDisconnectSetsErrored then { s with hasErrored := true } else s
   let s := if Gen.appDisconnectStopsPing then stopPing s else s
   let (s, r) := if !rc then callback c s .onError [.exn e] else (s, .ok ())
@@ -352,6 +353,11 @@ def handleDisconnect (c : Cfg) (s : St) (e : AExn) (rc : Bool) : St × R Unit :=
   | .exc e' => (s, .exc e')
   | .halt => (s, .halt)
   | .ok () => afterReport c s e
+
+def handleDisconnect (c : Cfg) (s : St) (e : AExn) (rc : Bool) : St × R Unit :=
+  -- `if not self.keep_running and not isinstance(e, (KeyboardInterrupt, SystemExit)): teardown(); return` — the
+  -- application has closed the connection: what the loop trips over on its way out is not an error of the run
+  if Gen.appCloseGuard && !s.keepRunning && e != .ki then teardown c s none else handleDisconnectBody c s e rc
 
 /-! ### read, check -/
 
